@@ -71,7 +71,8 @@ TARGETS = {
             "delete_recorded_valid", "fit_no_raise_partial", "fit_raise_sites",
             "trivialFit_delete_applies", "delete_applies_flat", "delete_never_raises_flat",
             "delete_applies", "delete_never_raises", "deleteRange_applies", "deleteRange_never_raises",
-            "replaceRange_delete_applies"],
+            "replaceRange_delete_applies", "trivialFit_replace_applies", "replace_never_raises_flat",
+            "insertInline_never_raises_flat"],
     "C12": ["canJoin_join_applies", "liftTarget_lift_applies_flat", "liftTarget_lift_applies", "insertPoint_insert_applies",
             "dropPoint_drop_applies_closed", "joinPoint_join_applies", "insertPoint_insert_text_applies",
             "insertPoint_insert_marked_top"],
